@@ -46,35 +46,29 @@ Theorem c10_dump_always_complete :
 Proof. exact dump_always_complete. Qed.
 
 (** ---- damaged input ----
-    The loader model is a total function of the file bytes.  Without overflow checks (the
-    release profile of the server) it never takes the Panic outcome, whatever the bytes,
-    the clocks and the databases already loaded: it ends with Ok or with Err and a clean
-    partial load. *)
-Theorem c10_load_total_release :
-  forall now wall ds0 b, load_status (load_from false now wall ds0 b) <> LPanic.
-Proof. exact load_no_panic_release. Qed.
+    The loader model is a total function of the file bytes.  It never takes the Panic outcome,
+    whatever the bytes, the clocks and the databases already loaded - in either build profile:
+    the only arithmetic on file data that could overflow (the stream field count) is checked
+    explicitly since bcfe7be.  A load ends with Ok, or with Err and a clean partial load. *)
+Theorem c10_load_total :
+  forall now wall ds0 b, load_status (load_from now wall ds0 b) <> LPanic.
+Proof. exact load_no_panic. Qed.
 
-(** With overflow checks (debug profile) the claim is refuted: a stream field count of 2^63
-    in the file overflows [field_count * 2] (rdb.rs:900).  Class rdb-fieldcount-overflow. *)
-Example c10_load_panic_debug_refuted :
+(** Allocation (43b3590): read_string starts with min(declared, 64 KiB) and grows only with
+    the bytes actually read (doubling, plus read_to_end's 32-byte probe).  For EVERY file of L
+    bytes no request of the loader exceeds 64 KiB + 2 L + 32, whatever lengths it declares. *)
+Theorem c10_alloc_bounded :
+  forall now wall ds0 b, load_resv (load_from now wall ds0 b) <= 65536 + 2 * len b + 32.
+Proof. exact load_resv_bounded. Qed.
+
+(** the former witnesses of the classes rdb-fieldcount-overflow and rdb-alloc, now harmless *)
+Example c10_fieldcount_example :
   let b := magic ++ version4 ++ [254; 0; 1] ++ write_string (bs "s") ++ [6] ++ write_string marker
            ++ write_string (bs "1-1") ++ write_string (bs "9223372036854775808")
            ++ write_string (bs "f") ++ write_string (bs "v") ++ write_string (bs "x") ++ [255; 0; 0; 0; 0; 0; 0; 0; 0] in
-  load_status (load true 0 0 b) = LPanic /\ load_status (load false 0 0 b) = LErr.
-Proof. vm_compute. split; reflexivity. Qed.
-
-(** What does bound the loader's largest allocation request, for every file (of bytes), both
-    profiles, any clocks and initial databases: the largest length the 32-bit form can declare. *)
-Theorem c10_alloc_below_4gib :
-  forall chk now wall ds0 b, Forall (fun c => 0 <= c < 256) b ->
-  load_resv (load_from chk now wall ds0 b) < two32.
-Proof. exact load_resv_below_4gib. Qed.
-
-(** The allocation bound [reserved <= k * |file|] is refuted for every reasonable k:
-    read_string allocates the declared length before reading (rdb.rs:1016-1021); an 18-byte
-    file makes the loader ask for 256 MiB.  Class rdb-alloc (DESIGN F-10b). *)
-Example c10_alloc_bounded_refuted :
+  load_status (load 0 0 b) = LErr.
+Proof. vm_compute. reflexivity. Qed.
+Example c10_alloc_example :
   let b := magic ++ version4 ++ [0; 128; 16; 0; 0; 0] ++ bs "abc" in
-  len b = 18 /\ load_status (load false 0 0 b) = LErr /\ load_resv (load false 0 0 b) = 268435456 /\
-  1000000 * len b < load_resv (load false 0 0 b).
+  len b = 18 /\ load_status (load 0 0 b) = LErr /\ load_resv (load 0 0 b) = 65536.
 Proof. vm_compute. repeat split; reflexivity. Qed.
